@@ -1,6 +1,8 @@
 (* C10 -- "when a conversion is not supported the model is left as it was": every request (source s, target t) outside
-   smin <= s <= t <= smax, on the native path with the below-minimum pre-check (C10_03), raises and leaves the model
-   exactly as it was; without the pre-check a source below the supported minimum is re-stamped (refuted). *)
+   smin <= s <= t <= smax, on the native path with the below-minimum pre-check (either variant: a75b415 node versions,
+   78f42e9 the container's import), raises and leaves the model exactly as it was; without the pre-check a source below
+   the supported minimum is re-stamped (refuted); the node-version variant refuses exporter output inside the supported
+   range (refuted); the import variant never fires when every container imports a supported opset. *)
 From Coq Require Import ZArith List Bool String Lia.
 Import ListNotations.
 Require Import OV.Gen.VersionTables OV.Version.Model OV.Version.Model2 OV.Version.Adapters
@@ -44,25 +46,93 @@ Section Unsupported.
     - cbn in Hex. rewrite (IH Hlt Hrest Hex). apply orb_true_r.
   Qed.
 
+  (* the 78f42e9 variant needs no assumption on node versions: the import alone decides *)
+  Lemma has_dflt_of_dflt : forall n, n_dflt n = true -> has_dflt n = true.
+  Proof. intros [o d v r a i sh sb] H. cbn in *. now rewrite H. Qed.
+  Lemma below_min_decl_exists : forall s todo, s < smin ->
+    existsb n_dflt todo = true -> existsb (below_min_decl smin (Some s)) todo = true.
+  Proof.
+    intros s. induction todo as [|n rest IH]; intros Hlt Hex; [discriminate|].
+    cbn [existsb] in *. apply orb_true_iff in Hex as [Hn|Hr].
+    - unfold below_min_decl at 1. rewrite (has_dflt_of_dflt n Hn). assert (E : (s <? smin) = true) by (apply Z.ltb_lt; lia). now rewrite E.
+    - rewrite (IH Hlt Hr). apply orb_true_r.
+  Qed.
+  Lemma min_refuses_exists : forall mv s todo, mv <> MinOff -> s < smin ->
+    forallb (at_version s) todo = true -> existsb n_dflt todo = true -> existsb (min_refuses mv smin (Some s)) todo = true.
+  Proof.
+    intros [| |] s todo Hmv Hlt Hu Hex; [congruence| |].
+    - exact (below_min_exists s todo Hlt Hu Hex).
+    - exact (below_min_decl_exists s todo Hlt Hex).
+  Qed.
+
   (* the exhaustive statement over all (s, t): function-free model (as after the inlining of the public entry) with at
-     least one default-domain node, consistent at s; request outside smin <= s <= t <= smax => exception, model untouched *)
-  Theorem native2_unsupported_unchanged : forall own refuse fuel s t M,
+     least one default-domain node, consistent at s; request outside smin <= s <= t <= smax => exception, model untouched.
+     Holds for both variants of the below-minimum pre-check (a75b415: node versions; 78f42e9: the import). *)
+  Theorem native2_unsupported_unchanged : forall own refuse mv fuel s t M, mv <> MinOff ->
     consistent_at s M = true -> m_funcs M = [] -> existsb n_dflt (m_graph M) = true ->
     unsupported smin smax s t = true ->
-    exists e, convert_native2 own refuse true adapt smin smax fuel M t = MRaised e M [].
+    exists e, convert_native2 own refuse mv adapt smin smax fuel M t = MRaised e M [].
   Proof.
-    intros own refuse fuel s t M Hc Hf Hex Hu. unfold convert_native2.
+    intros own refuse mv fuel s t M Hmv Hc Hf Hex Hu. unfold convert_native2.
     destruct ((t >? smax) || (t <? smin)) eqn:Er; [eauto|].
     apply orb_false_iff in Er as [Er1 Er2].
     rewrite (default_version_consistent s M Hc), Hf. cbn [versions_of existsb orb].
     assert (Hg : forallb (at_version s) (m_graph M) = true) by (apply consistent_at_inv in Hc; tauto).
     unfold unsupported in Hu. rewrite Er1, Er2 in Hu. cbn in Hu.
     destruct (s <? smin) eqn:Es.
-    - apply Z.ltb_lt in Es. rewrite (below_min_exists s _ Es Hg Hex). rewrite !orb_false_r, orb_true_r. eauto.
+    - apply Z.ltb_lt in Es. rewrite (min_refuses_exists mv s _ Hmv Es Hg Hex). rewrite !orb_false_r, orb_true_r. eauto.
     - cbn in Hu. apply Z.ltb_lt in Hu.
       destruct (_ || _); [eauto|].
       destruct (conv_downgrade_aborts s t fuel (m_graph M) Hu Hg Hex) as (e & ->).
       exists e. destruct M; cbn in *. now subst.
+  Qed.
+
+  (* 78f42e9, source below the minimum: the import ALONE decides -- whatever versions the nodes carry (no consistency
+     hypothesis), functions allowed, any target in range: refused, model exactly as passed in *)
+  Lemma decl_below_min_refused : forall own refuse fuel s t M fvs,
+    (t >? smax) || (t <? smin) = false -> default_version M = Some (Some s) -> s < smin ->
+    versions_of own (Some s) (m_funcs M) = Some fvs ->
+    existsb has_dflt (m_graph M) = true ->
+    convert_native2 own refuse MinDecl adapt smin smax fuel M t = MRaised ERefused M [].
+  Proof.
+    intros own refuse fuel s t M fvs Hr Hd Hlt Hv Hex. unfold convert_native2. rewrite Hr, Hd, Hv.
+    assert (E : existsb (min_refuses MinDecl smin (Some s)) (m_graph M) = true).
+    { change (min_refuses MinDecl smin (Some s)) with (below_min_decl smin (Some s)).
+      revert Hex. generalize (m_graph M). induction l as [|n r IH]; intros H; [discriminate|].
+      cbn [existsb] in *. apply orb_true_iff in H as [H|H].
+      - unfold below_min_decl at 1. rewrite H. assert (E : (s <? smin) = true) by (apply Z.ltb_lt; lia). now rewrite E.
+      - rewrite (IH H). apply orb_true_r. }
+    rewrite E. now rewrite orb_true_r.
+  Qed.
+
+  (* 78f42e9, every container imports a supported opset: the pre-check never fires, whatever versions the nodes carry --
+     the converter is the one before a75b415 (this is what a75b415 broke for exporter output) *)
+  Lemma decl_nodes_quiet : forall v (l : list node), smin <= v -> existsb (min_refuses MinDecl smin (Some v)) l = false.
+  Proof.
+    intros v l Hv. change (min_refuses MinDecl smin (Some v)) with (below_min_decl smin (Some v)).
+    induction l as [|n r IH]; [reflexivity|]. cbn [existsb]. unfold below_min_decl at 1.
+    assert (E : (v <? smin) = false) by (apply Z.ltb_ge; lia). rewrite E. exact IH.
+  Qed.
+  Definition fv_supported (p : func * option Z) : bool :=
+    match snd p with Some v => smin <=? v | None => true end.
+  Lemma decl_funcs_quiet : forall (fvs : list (func * option Z)), forallb fv_supported fvs = true ->
+    existsb (fun p => existsb (min_refuses MinDecl smin (snd p)) (f_nodes (fst p))) fvs = false.
+  Proof.
+    induction fvs as [|[f fv] r IH]; intros H; [reflexivity|]. cbn [forallb] in H. apply andb_true_iff in H as [Hf Hr].
+    cbn [existsb fst snd]. rewrite (IH Hr), orb_false_r. unfold fv_supported in Hf. cbn [snd] in Hf.
+    destruct fv as [v|].
+    - apply decl_nodes_quiet. apply Z.leb_le in Hf. lia.
+    - clear. induction (f_nodes f) as [|n l IHl]; [reflexivity|]. cbn. exact IHl.
+  Qed.
+  Theorem decl_supported_import_never_refused : forall own refuse fuel s t M fvs,
+    default_version M = Some (Some s) -> smin <= s ->
+    versions_of own (Some s) (m_funcs M) = Some fvs -> forallb fv_supported fvs = true ->
+    convert_native2 own refuse MinDecl adapt smin smax fuel M t = convert_native2 own refuse MinOff adapt smin smax fuel M t.
+  Proof.
+    intros own refuse fuel s t M fvs Hd Hs Hv Hf. unfold convert_native2.
+    destruct ((t >? smax) || (t <? smin)); [reflexivity|]. rewrite Hd, Hv.
+    rewrite (decl_nodes_quiet s _ Hs), (decl_funcs_quiet fvs Hf).
+    rewrite (min_off_nodes smin (Some s)), (min_off_funcs smin fvs). reflexivity.
   Qed.
 End Unsupported.
 
@@ -70,11 +140,28 @@ End Unsupported.
 Definition w_below_min : model := Model (Some 11) None [Node "Squeeze" true None false [("axes"%string, AInts [0])] [true] [] []] [].
 Lemma below_min_refuted : forall fx own refuse, exists M',
   unsupported supported_min supported_max 11 18 = true /\ consistent_at 11 w_below_min = true /\
-  convert_native2 own refuse false (std_adapt fx) supported_min supported_max big_fuel w_below_min 18 = MDone M' [] /\
+  convert_native2 own refuse MinOff (std_adapt fx) supported_min supported_max big_fuel w_below_min 18 = MDone M' [] /\
   m_decl M' = Some 18 /\ map n_attrs (m_graph M') = [[("axes"%string, AInts [0])]].
 Proof. intros [[] []] [] []; eexists; vm_compute; repeat split; reflexivity. Qed.
 
-Lemma below_min_fixed_example : forall fx own refuse,
-  convert_native2 own refuse true (std_adapt fx) supported_min supported_max big_fuel w_below_min 18 = MRaised ERefused w_below_min [] /\
+Lemma below_min_fixed_example : forall fx own refuse mv, mv <> MinOff ->
+  convert_native2 own refuse mv (std_adapt fx) supported_min supported_max big_fuel w_below_min 18 = MRaised ERefused w_below_min [] /\
   existsb n_dflt (m_graph w_below_min) = true.
-Proof. intros [[] []] [] []; vm_compute; split; reflexivity. Qed.
+Proof. intros [[] []] [] [] [| |] H; try congruence; vm_compute; split; reflexivity. Qed.
+
+(* REFUTED for the a75b415 variant (node versions): what torch.onnx.export(dynamo=True) produces -- a model importing
+   opset 18 whose nodes are stamped with the since-version of their schema (Relu-14, Add-14, Neg-13) -- is refused
+   although source and target are both in the supported range; the 78f42e9 variant (the import decides) converts it and the
+   result is consistent at the target.  (The witness cannot be replayed on the repaired tree: theorem about the old
+   variant only; the harness family `stamped` exercises the repaired behaviour.) *)
+Definition w_stamped : model :=
+  Model (Some 18) None [Node "Relu" true (Some 14) false [] [true] [] []; Node "Add" true (Some 14) false [] [true; true] [] [];
+                        Node "Neg" true (Some 13) false [] [true] [] []] [].
+Lemma node_version_check_refuted : forall fx own refuse,
+  unsupported supported_min supported_max 18 20 = false /\
+  convert_native2 own refuse MinNode (std_adapt fx) supported_min supported_max big_fuel w_stamped 20 = MRaised ERefused w_stamped [] /\
+  (exists M', convert_native2 own refuse MinDecl (std_adapt fx) supported_min supported_max big_fuel w_stamped 20 = MDone M' [] /\
+              consistent_at 20 M' = true /\ map n_op (m_graph M') = map n_op (m_graph w_stamped)) /\
+  convert_native2 own refuse MinDecl (std_adapt fx) supported_min supported_max big_fuel w_stamped 20
+  = convert_native2 own refuse MinOff (std_adapt fx) supported_min supported_max big_fuel w_stamped 20.
+Proof. intros [[] []] [] []; vm_compute; (split; [reflexivity|]); (split; [reflexivity|]); (split; [eexists; repeat split; reflexivity|reflexivity]). Qed.
